@@ -203,6 +203,10 @@ def judge(sh: Shard, mw, label, suspend, regime, exited):
             overlapping = any(o is not rec and o["api"] == "async_reset" and o["seq0"] < rec["seq1"] and o.get("seq1", 1 << 60) > rec["seq0"] for o in api)
             key = "C08:I5:reset-postcondition" + (":pump-interleaved" if interleaved else (":overlapping-resets" if overlapping else ""))
             sh.violation(key, f"async_reset (from {rec['before']['state']}, task {rec['task']}) returned with state={a['state']} facade={a['facade'] is not None} spa={a['spa'] is not None} descriptors={a['desc']}", dict(wbase, reset=[round(rec["t0"], 2), round(rec["t1"], 2)]))
+    for e in ev:
+        if e.get("reset_from_handler"):
+            sh.count("resets_made_from_a_client_handler_on_a_connection_task" if str(e["task"]).startswith(("FACADE:", "SPA:")) else "resets_made_from_a_client_handler")
+            sh.see("reset_from_handler_tasks", e["task"])
     # ---- I5b: giving the manager its spa details (again, other ones, or none) is a user reset:
     # a call that returned made a reset (judged above like any other)
     for rec in api:
@@ -287,7 +291,7 @@ async def press_button(man, mw, sh):
 def gen_script(r, tier):
     from vlib.man import Phase
 
-    kind = r.choice(["plain", "plain", "outage", "rferr", "lossy-handshake", "absent", "wrong-id", "resets", "resets", "endpoint-raise", "long", "handler-raise", "handler-raise", "rferr-long", "reset-at-step", "reset-at-step", "button-in-flight"])
+    kind = r.choice(["plain", "plain", "outage", "rferr", "lossy-handshake", "absent", "wrong-id", "resets", "resets", "endpoint-raise", "long", "handler-raise", "handler-raise", "rferr-long", "reset-at-step", "reset-at-step", "button-in-flight", "reset-from-facade-poll"])
     phases, actions = [], []
     ident = None
     ep_fault = None
@@ -309,6 +313,10 @@ def gen_script(r, tier):
         n = r.choice([1, 2, 4])
         for _ in range(n):
             actions.append((r.choice([r.uniform(0, 6), r.uniform(0, phases[0].dur)]), r.choice(["reset", "button", "set-info", "clear-info"])))
+    elif kind == "reset-from-facade-poll":
+        # pings are answered, the facade's watercare / reminders poll is not: its retries run out, the
+        # client is told - on the facade's own update task - and resets the manager from that handler
+        phases = [Phase("healthy", 8), Phase("nopoll", 200), Phase("healthy", 60)]
     elif kind == "button-in-flight":
         # connected, reset, and the button pressed while the manager is locating / connecting again
         phases = [Phase("healthy", 40)]
@@ -347,7 +355,11 @@ def scenario(sh: Shard, seed, idx, tier):
         kw["identifier"] = ident
     # snapshots with a pump running put the library in its "active" timing table
     snapshot = r.choice(["default.snapshot", "inYT-Pump1Hi-2020-12-13 11_19_35.snapshot", "inXM-Pump 1 running-2020-12-08 19_54_01.snapshot", "inYT-all off-2020-10-23 18_00_45.snapshot"])
+    if kind == "reset-from-facade-poll":
+        suspend = "none"  # (with suspending handlers the reset made from the task it cancels is cut short by design of asyncio)
     mw = ManWorld(r, regime, suspend=suspend, snapshot=snapshot, **kw)
+    if kind == "reset-from-facade-poll":
+        mw.reset_in_handler, mw.resets_in_handler_left = {"ERROR_PROTOCOL_RETRY_COUNT_EXCEEDED"}, 1
     if kind == "handler-raise":
         # the client's handler fails on events delivered inside a locate / connect phase
         pool = ["LOCATING_STARTED", "LOCATING_DISCOVERED_SPA", "LOCATING_FINISHED", "CONNECTION_STARTED", "CONNECTION_GOT_FIRMWARE_VERSION", "CONNECTION_GOT_CHANNEL", "CONNECTION_GOT_CONFIG_FILES", "CONNECTION_INITIAL_DATA_BLOCK_REQUEST", "CONNECTION_SPA_COMPLETE", "CONNECTION_FINISHED"]
@@ -456,6 +468,7 @@ def main(tier, seed):
     run.extra["distinct_abstract_states"] = len(run.sets.get("abstract_states", set()))
     run.need(run.counters.get("rf_error_escalations_due", 0) >= 1, "no connection saw more RF errors than the escalation limit")
     run.need(run.counters.get("client_handler_failures", 0) >= 5, "too few client handler failures inside locate/connect phases were injected")
+    run.need(run.counters.get("resets_made_from_a_client_handler_on_a_connection_task", 0) >= 2, "no reset was made by the client from inside its handler on a task of the connection")
     run.need(run.counters.get("reconnect_button_presses_returned", 0) >= 10 and len(run.sets.get("reconnect_button_from_states", ())) >= 3, "the reconnect button was hardly pressed / from too few states")
     run.need(run.counters.get("set_spa_info_calls_returned", 0) >= 10 and run.counters.get("spa_details_cleared", 0) >= 3, "set-spa-info calls / clearing of the spa details hardly exercised")
     return run.finish(
